@@ -49,97 +49,92 @@ def lowerBind (b : Bind) (n : Nat) : List Flow × Nat := (evs n (b.value.calls +
 def lowerCallS (c : CallS) (n : Nat) : List Flow × Nat := (evs n (Expr.callsL c.args + 1), n + Expr.callsL c.args + 1)
 def lowerRet (e : Expr) (n : Nat) : List Flow × Nat := (evs n e.calls ++ [.ret (n + e.calls)], n + e.calls + 1)
 
+/-! `f2 = false`: the structured semantics of the source.  `f2 = true`: the same *with finding F2
+built in* — in an if/else body the statements that follow a nested `if` are never executed (the
+nested `if` jumps to the enclosing end label); their events keep their numbers. -/
 mutual
-def IfStmt.lower : IfStmt → Nat → List Flow × Nat
+def IfStmt.lower (f2 : Bool) : IfStmt → Nat → List Flow × Nat
   | .mk cond body els elif, n =>
     let c := cond.calls
-    let (tb, n1) := IfBodies.lower body (n + c)
+    let (tb, n1) := IfBodies.lower f2 body (n + c)
     match els, elif with
     | some eb, _ =>
-      let (ebf, n2) := IfBodies.lower eb n1
+      let (ebf, n2) := IfBodies.lower f2 eb n1
       (evs n c ++ [.ite tb ebf], n2)
     | none, some ei =>
-      let (eif, n2) := IfStmt.lower ei n1
+      let (eif, n2) := IfStmt.lower f2 ei n1
       (evs n c ++ [.ite tb eif], n2)
     | none, none => (evs n c ++ [.ite tb []], n1)
-def IfBodies.lower : IfBodies → Nat → List Flow × Nat
-  | .ifb l, n => IfBodyStmt.lowerL l n
-  | .loopb l, n => IfLoopStmt.lowerL l n
-def IfBodyStmt.lowerL : List IfBodyStmt → Nat → List Flow × Nat
+def IfBodies.lower (f2 : Bool) : IfBodies → Nat → List Flow × Nat
+  | .ifb l, n => IfBodyStmt.lowerL f2 l n
+  | .loopb l, n => IfLoopStmt.lowerL f2 l n
+def IfBodyStmt.lowerL (f2 : Bool) : List IfBodyStmt → Nat → List Flow × Nat
   | [], n => ([], n)
+  | .ifS i :: tl, n =>
+    let (a, n1) := IfStmt.lower f2 i n
+    let (r, n2) := IfBodyStmt.lowerL f2 tl n1
+    (if f2 && !tl.isEmpty then a else a ++ r, n2)
   | st :: tl, n =>
     let (a, n1) := match st with
       | .letB b => lowerLet b n
       | .bind b => lowerBind b n
       | .call c => lowerCallS c n
-      | .ifS i => IfStmt.lower i n
-      | .loop b => let (f, m) := LoopStmt.lowerL b n; ([Flow.loop f], m)
+      | .ifS i => IfStmt.lower f2 i n
+      | .loop b => let (f, m) := LoopStmt.lowerL f2 b n; ([Flow.loop f], m)
       | .ret e => lowerRet e n
-    let (r, n2) := IfBodyStmt.lowerL tl n1
+    let (r, n2) := IfBodyStmt.lowerL f2 tl n1
     (a ++ r, n2)
-def IfLoopStmt.lowerL : List IfLoopStmt → Nat → List Flow × Nat
+def IfLoopStmt.lowerL (f2 : Bool) : List IfLoopStmt → Nat → List Flow × Nat
   | [], n => ([], n)
+  | .ifS i :: tl, n =>
+    let (a, n1) := IfStmt.lower f2 i n
+    let (r, n2) := IfLoopStmt.lowerL f2 tl n1
+    (if f2 && !tl.isEmpty then a else a ++ r, n2)
   | st :: tl, n =>
     let (a, n1) := match st with
       | .letB b => lowerLet b n
       | .bind b => lowerBind b n
       | .call c => lowerCallS c n
-      | .ifS i => IfStmt.lower i n
-      | .loop b => let (f, m) := LoopStmt.lowerL b n; ([Flow.loop f], m)
+      | .ifS i => IfStmt.lower f2 i n
+      | .loop b => let (f, m) := LoopStmt.lowerL f2 b n; ([Flow.loop f], m)
       | .ret e => lowerRet e n
       | .brk => ([Flow.brk], n)
       | .cont => ([Flow.cont], n)
-    let (r, n2) := IfLoopStmt.lowerL tl n1
+    let (r, n2) := IfLoopStmt.lowerL f2 tl n1
     (a ++ r, n2)
-def LoopStmt.lowerL : List LoopStmt → Nat → List Flow × Nat
+def LoopStmt.lowerL (f2 : Bool) : List LoopStmt → Nat → List Flow × Nat
   | [], n => ([], n)
   | st :: tl, n =>
     let (a, n1) := match st with
       | .letB b => lowerLet b n
       | .bind b => lowerBind b n
       | .call c => lowerCallS c n
-      | .ifS i => IfStmt.lower i n
-      | .loop b => let (f, m) := LoopStmt.lowerL b n; ([Flow.loop f], m)
+      | .ifS i => IfStmt.lower f2 i n
+      | .loop b => let (f, m) := LoopStmt.lowerL f2 b n; ([Flow.loop f], m)
       | .ret e => lowerRet e n
       | .brk => ([Flow.brk], n)
       | .cont => ([Flow.cont], n)
-    let (r, n2) := LoopStmt.lowerL tl n1
+    let (r, n2) := LoopStmt.lowerL f2 tl n1
     (a ++ r, n2)
 end
 
-def BodyStmt.lowerL : List BodyStmt → Nat → List Flow × Nat
+def BodyStmt.lowerL (f2 : Bool) : List BodyStmt → Nat → List Flow × Nat
   | [], n => ([], n)
   | st :: tl, n =>
     let (a, n1) := match st with
       | .letB b => lowerLet b n
       | .bind b => lowerBind b n
       | .call c => lowerCallS c n
-      | .ifS i => IfStmt.lower i n
-      | .loop b => let (f, m) := LoopStmt.lowerL b n; ([Flow.loop f], m)
+      | .ifS i => IfStmt.lower f2 i n
+      | .loop b => let (f, m) := LoopStmt.lowerL f2 b n; ([Flow.loop f], m)
       | .expr e | .ret e => lowerRet e n
-    let (r, n2) := BodyStmt.lowerL tl n1
+    let (r, n2) := BodyStmt.lowerL f2 tl n1
     (a ++ r, n2)
 
-def FnDecl.flow (f : FnDecl) : List Flow := (BodyStmt.lowerL f.body 0).1
+def FnDecl.flow (f : FnDecl) : List Flow := (BodyStmt.lowerL false f.body 0).1
 
-mutual
-/-- the structured semantics *with finding F2 built in*: in an if/else body the statements that
-follow a nested `if` are never executed (the nested `if` jumps to the enclosing end label) -/
-def Flow.f2 : Flow → Flow
-  | .ite t e => .ite (f2Body t) (f2Body e)
-  | .loop b => .loop (f2List b)
-  | .ev k => .ev k
-  | .brk => .brk
-  | .cont => .cont
-  | .ret k => .ret k
-def f2List : List Flow → List Flow
-  | [] => []
-  | x :: rest => Flow.f2 x :: f2List rest
-def f2Body : List Flow → List Flow
-  | [] => []
-  | .ite t e :: _ => [.ite (f2Body t) (f2Body e)]
-  | x :: rest => Flow.f2 x :: f2Body rest
-end
+/-- the F2 reading of the source function -/
+def FnDecl.flowF2 (f : FnDecl) : List Flow := (BodyStmt.lowerL true f.body 0).1
 
 /-! ### Structured execution -/
 
@@ -249,6 +244,6 @@ def flowCheck (f : FnDecl) (stack : List Instr) (k fuel : Nat) : Option String :
 
 /-- the same check against the F2 reading of the source -/
 def flowCheckF2 (f : FnDecl) (stack : List Instr) (k fuel : Nat) : Option String :=
-  flowCheckOn (f2List f.flow) stack k fuel
+  flowCheckOn f.flowF2 stack k fuel
 
 end SemVerif
